@@ -170,6 +170,7 @@ type Job struct {
 	Fails         []*Witness
 	Reached       map[string]*Witness
 	Panics        []*Witness
+	TruncWitness  []*Witness
 	AllocEvents   []*Witness
 	Notes         map[string]int
 	Funcs         map[string]bool
@@ -412,6 +413,15 @@ func (j *Job) runPath(sol *Solver, prefix []decision) {
 	i.killThreads()
 
 	var pw *Witness
+	if outcome == "truncated" || outcome == "unsupported" {
+		if tw, r := i.witnessUnder("", "truncated", outcome, detail); r == "sat" && tw != nil {
+			j.mu.Lock()
+			if len(j.TruncWitness) < 3 {
+				j.TruncWitness = append(j.TruncWitness, tw)
+			}
+			j.mu.Unlock()
+		}
+	}
 	if outcome == "panic" {
 		// a panic escaping the harness is a failure event
 		pw, _ = i.witnessUnder("", "panic", "escaped-panic", detail)
